@@ -23,8 +23,8 @@ ASSUMPTIONS = ['the independent walk (lokiverif.irtree.walk over dataclass field
                'edits only write to scopes owned by the edited copy (never to shared real ancestors), so no edit may legitimately reach another copy',
                'symbol-table contents are compared through lokiverif.irdump.dump_type (dtype name, kind, shape, intent, ... as text)',
                'generator flags for listed known findings are off in the main stream (PRINT statements, derived-type names in ONLY lists of resolved imports); their triggers live in replays/C17']
-SHARDS = {'quick': 8, 'thorough': 16}
-BUDGET = {'quick': 70, 'thorough': 1200}
+SHARDS = {'quick': 12, 'thorough': 16}
+BUDGET = {'quick': 55, 'thorough': 1200}
 
 _FLAGS = None
 
@@ -38,13 +38,14 @@ def flags():
     if _FLAGS is None:
         d = U.known_defects()
         _FLAGS = {'print': not d['print-not-rescoped'], 'dtsym': not d['dtsym-not-rescoped'], 'casts': True,
-                  'typedef_link': not d['typedef-link-to-source'], 'import_link': not d['clone-keeps-import-links-into-source']}
+                  'typedef_link': not d['typedef-link-to-source'], 'import_link': not d['clone-keeps-import-links-into-source'],
+                  'assoc_shadow_root': not d['clone-attaches-selector-to-shadowing-associate']}
     return _FLAGS
 
 ATTRS_CHECKED = ('shape', 'kind', 'initial', 'length')
 KINDS = ['file', 'module', 'routine', 'free', 'member']
 EDIT_OPS = ['rename_var', 'retype', 'add_decl', 'remove_decl', 'body_xform', 'subst', 'rename_unit', 'node_update',
-            'enrich', 'symtab', 'typedef_edit', 'assoc_edit', 'import_edit']
+            'enrich', 'symtab', 'typedef_edit', 'assoc_edit', 'import_edit', 'doc_edit']
 
 
 # ------------------------------------------------------------------ strategy
@@ -59,7 +60,7 @@ def cases(draw, kind=None, thorough=False):
             ops.append(['clone', draw(st.integers(0, 3)), draw(st.integers(0, 3)), 0, 0])
         else:
             ops.append([EDIT_OPS[draw(st.integers(0, len(EDIT_OPS) - 1))], draw(st.integers(0, 3)),
-                        draw(st.integers(0, 7)), draw(st.integers(0, 9)), draw(st.integers(0, 3))])
+                        draw(st.integers(0, 7)), draw(st.integers(0, 9)), draw(st.integers(0, 7))])
     case['ops'] = ops
     return case
 
@@ -241,7 +242,17 @@ def apply_edit(op, copy, inv, defs, foreign_typedef_links=frozenset(), allow_kno
         sname, section = _section_of(unit)
         if section is None:
             raise Noop()
-        what = how % 4
+        what = how % 5
+        if what == 4:
+            nodes = list(FindNodes((ir.Comment, ir.CommentBlock)).visit(unit.docstring))
+            if not nodes:
+                raise Noop()
+            node = nodes[k % len(nodes)]
+            if isinstance(node, ir.CommentBlock):
+                node._update(comments=(ir.Comment(text='! docstring changed by c17'),))
+            else:
+                node._update(text='! docstring changed by c17')
+            return f'node_update:{type(node).__name__}:docstring:{ulab}'
         if what == 0:
             nodes = FindNodes(ir.Assignment).visit(section)
             if not nodes:
@@ -257,11 +268,29 @@ def apply_edit(op, copy, inv, defs, foreign_typedef_links=frozenset(), allow_kno
                 raise Noop()
             unit.spec.append(ir.Comment(text='! appended by c17'))
             return f'node_update:Section.append:spec:{ulab}'
-        nodes = FindNodes(ir.Comment).visit(section)
+        nodes = list(FindNodes((ir.Comment, ir.CommentBlock)).visit(unit.docstring)) + \
+            list(FindNodes((ir.Comment, ir.CommentBlock)).visit(section))
         if not nodes:
             raise Noop()
-        nodes[k % len(nodes)]._update(text='! changed by c17')
-        return f'node_update:Comment.text:{ulab}'
+        node = nodes[k % len(nodes)]
+        if isinstance(node, ir.CommentBlock):
+            node._update(comments=(ir.Comment(text='! changed by c17'),))
+        else:
+            node._update(text='! changed by c17')
+        where = 'docstring' if any(node is d for d in unit.docstring) else sname
+        return f'node_update:{type(node).__name__}:{where}:{ulab}'
+
+    if kind == 'doc_edit':
+        # in-place edit of a docstring comment of any unit of the copy (k-th docstring node in document order)
+        nodes = [(x, n) for x in inv.units for n in FindNodes((ir.Comment, ir.CommentBlock)).visit(x.docstring)]
+        if not nodes:
+            raise Noop()
+        x, node = nodes[(u + k) % len(nodes)]
+        if isinstance(node, ir.CommentBlock):
+            node._update(comments=(ir.Comment(text='! docstring changed by c17'),))
+        else:
+            node._update(text='! docstring changed by c17')
+        return f'doc_edit:{type(node).__name__}:{"top" if x is copy else "contained"}'
 
     if kind == 'enrich':
         unit.enrich(list(defs), recurse=(how % 2 == 0))
@@ -357,17 +386,27 @@ def _where_sig(symbol, where):
     return f'{where}:{cls}'
 
 
+_loose = U.loose_type
+
+
 def check_clone(ctx, case, src_inv, src_snap, clone, clone_inv, clone_snap, variant, src_dirty):
     """oracle right after ``clone = src.clone(...)``"""
     # 1. same code
     if variant == 'plain' and src_snap['fgen'] != clone_snap['fgen']:
         d = U.snapshot_diff({'fgen': src_snap['fgen']}, {'fgen': clone_snap['fgen']})
         ctx.fail('C17:clone:fgen-differs' + (':of-edited-copy' if src_dirty else ''), case, f'fgen(clone) != fgen(source): {d}')
-    # 2. no symbol scoped in a scope owned by another copy
+    # 2. no symbol scoped in a scope owned by another copy. The two listed root causes have their own signature; any other
+    #    occurrence is reported once per clone (the first one in document order names the place)
     seen = set()
+    generic = False
     for (s, where), tok in zip(clone_inv.occurrences, clone_snap['scoping']):
         if tok.startswith('FOREIGN'):
-            sig = f'C17:clone:scope-owned-by-source:{_where_sig(s, where)}'
+            ws = _where_sig(s, where)
+            special = ws in ('DerivedTypeSymbol', 'PrintStmt.values')
+            if not special and generic:
+                continue
+            generic = generic or not special
+            sig = f'C17:clone:scope-owned-by-source:{ws}'
             if sig not in seen:
                 seen.add(sig)
                 ctx.fail(sig, case, f'after clone, {type(s).__name__} {str(s)!r} in {where} of the clone is still scoped in a scope '
@@ -382,6 +421,12 @@ def check_clone(ctx, case, src_inv, src_snap, clone, clone_inv, clone_snap, vari
                 seen.add(sig)
                 ctx.fail(sig, case, f'after clone, symbol {str(s)!r} inside a stored type attribute ({where}) of the clone\'s symbol '
                                     f'table is still scoped in a scope owned by the copy it was cloned from')
+    # 2b. ... and the clone did not capture symbols of its source (nodes shared between the two would be re-attached to the clone)
+    for (s, where), tok in zip(src_inv.occurrences, src_snap['scoping']):
+        if tok.startswith('FOREIGN'):
+            ctx.fail(f'C17:clone:source-symbol-scoped-in-other-copy:{_where_sig(s, where)}', case,
+                     f'after clone, {type(s).__name__} {str(s)!r} in {where} of the SOURCE is scoped in a scope owned by another copy ({tok})')
+            break
     # 3./4. lockstep: scoped symbols stay scoped; resolved types are the same. Only for sources that no edit has touched:
     # an edited copy may be inconsistent in itself (stale table entries), the clone then legitimately re-derives types.
     if src_dirty:
@@ -392,12 +437,12 @@ def check_clone(ctx, case, src_inv, src_snap, clone, clone_inv, clone_snap, vari
             s, where = clone_inv.occurrences[i]
             if a.startswith('own') and b == 'none' and not lost:
                 lost = True
-                ctx.fail(f'C17:clone:lost-scope:{_where_sig(s, where)}', case,
+                ctx.fail(f'C17:clone:lost-scope:{where}', case,
                          f'{str(s)!r} in {where} is scoped inside the source ({a}) but unscoped in the clone')
-            ta, tb = src_snap['types'][i], clone_snap['types'][i]
+            ta, tb = _loose(src_snap['types'][i]), _loose(clone_snap['types'][i])
             if ta != tb and not typed and ta is not None and not str(ta.get('dtype')).endswith(':deferred'):
                 typed = True
-                ctx.fail(f'C17:clone:type-differs:{_where_sig(s, where)}', case,
+                ctx.fail(f'C17:clone:type-differs:{where}', case,
                          f'{str(s)!r} in {where}: type in source {ta} but resolved through the clone {tb}')
     else:
         ctx.count('clone:symbol-sequence-differs')
@@ -548,7 +593,7 @@ def check_case(case, ctx):
 def run_shard(ctx):
     for k, v in sorted(U.known_defects().items()):
         ctx.extra[f'listed_root_cause_present:{k}'] = int(v) if ctx.shard == 0 else 0
-    total = ctx.scale(640, 12000)
+    total = ctx.scale(720, 12000)
     per = max(1, total // len(KINDS))
     for i in range(len(KINDS)):
         kind = KINDS[(i + ctx.shard) % len(KINDS)]
